@@ -19,18 +19,16 @@ Section ConcreteSeq.
 
   (* key with the offset (after F16): every request with well-formed options, any page *)
   Theorem seq_v1 :
-    (forall s g q l e, q_wf arg q = true -> snd (inner_step s g (Read q)) = AList l (Some e) -> l = []) ->
     forall s g rs, (forall q, In (Read q) rs -> q_wf arg q = true) ->
       snd (memo_run_v1 (init_m s) (HOpen g :: map (HDo 0) rs)) = snd (ref_run (init_r s) (HOpen g :: map (HDo 0) rs)) /\
       m_inner (fst (memo_run_v1 (init_m s) (HOpen g :: map (HDo 0) rs))) =
       r_inner (fst (ref_run (init_r s) (HOpen g :: map (HDo 0) rs))).
   Proof.
-    intros Herr s g rs HD.
+    intros s g rs HD.
     apply (sequential_single_handle istate gid wreq (cquery arg) elem err (ckey arg) cq_is_exist key_v1
              (ckey_eqb arg_eqb) (ckey_eqb_eq arg arg_eqb arg_eqb_eq) inner_step (q_wf arg)).
     - exact Hpure.
     - intros s0 g0 q1 q2 D1 D2 Ek _. rewrite (key_v1_inj arg q1 q2 D1 D2 Ek). reflexivity.
-    - exact Herr.
     - exact HD.
   Qed.
 
@@ -42,13 +40,12 @@ Section ConcreteSeq.
     (* the wrapped store pages only when MaxElements > 0 (storage/memory's checker does) *)
     (forall s g q, (lo_max (q_lo q) <= 0)%Z ->
                    snd (inner_step s g (Read q)) = snd (inner_step s g (Read (with_offset arg q 0)))) ->
-    (forall s g q l e, D0 q = true -> snd (inner_step s g (Read q)) = AList l (Some e) -> l = []) ->
     forall s g rs, (forall q, In (Read q) rs -> D0 q = true) ->
       snd (memo_run_v0 (init_m s) (HOpen g :: map (HDo 0) rs)) = snd (ref_run (init_r s) (HOpen g :: map (HDo 0) rs)) /\
       m_inner (fst (memo_run_v0 (init_m s) (HOpen g :: map (HDo 0) rs))) =
       r_inner (fst (ref_run (init_r s) (HOpen g :: map (HDo 0) rs))).
   Proof.
-    intros Hpage Herr s g rs HD.
+    intros Hpage s g rs HD.
     apply (sequential_single_handle istate gid wreq (cquery arg) elem err (ckey arg) cq_is_exist key_v0
              (ckey_eqb arg_eqb) (ckey_eqb_eq arg arg_eqb arg_eqb_eq) inner_step D0).
     - exact Hpure.
@@ -62,7 +59,6 @@ Section ConcreteSeq.
       rewrite (N q1 D1), (N q2 D2).
       unfold D0 in D1, D2. apply andb_true_iff in D1. apply andb_true_iff in D2.
       rewrite (key_v0_inj arg q1 q2 (proj1 D1) (proj1 D2) Ek). reflexivity.
-    - exact Herr.
     - exact HD.
   Qed.
 End ConcreteSeq.
@@ -105,5 +101,8 @@ Definition flaky_step (s : list N * bool) (g : N) (r : @req twreq tquery) : (lis
   | _, (c, b) => let '(c', a) := tiny_step c g r in ((c', b), a)
   end.
 
+(* current model and the model of the tree before fix F22, one handle *)
 Definition fm_run :=
   @memo_run (list N * bool) N twreq tquery N N (ckey N) cq_is_exist key_v1 (ckey_eqb N.eqb) flaky_step.
+Definition fm_run_f22 :=
+  @run1_f22 (list N * bool) N twreq tquery N N (ckey N) cq_is_exist key_v1 (ckey_eqb N.eqb) flaky_step.
